@@ -34,6 +34,15 @@ scale  : `scale` = a case of the ordinary families and its copy times 2^k (k = +
          the exact model and each other up to the exact factor; `scale_mixed` = a tiny cluster (spacing down to 2^-300)
          inside a huge box (half-size up to 2^300), up to 600 levels deep.  An absolute threshold (depth cap, epsilon
          compare) shows as a mismatch with the model.
+zeros  : SIGNED ZEROS.  A number crosses the boundary as "m:e"; "-0:0" is the double -0.0 (sign bit set).  The harness feeds
+         that bit pattern to the library (and prints how many it fed: line Z, compared here); the exact model, the hex-float
+         reader and the OCaml driver read it as the rational 0 - the property speaks about numbers, so +0.0 and -0.0 are one
+         point.  Half of the exact-stream cases get random sign bits on every zero coordinate (points, root centre); the
+         family `signed_zero` builds coincident points whose zero coordinate differs in the sign bit (on a split line, on a
+         box edge, generic; mirrored data; one-sign controls), modes E / F, and the tolerance and gradient streams get such
+         twins too.  Properties_C18.duplicate_test_binary64_is_exact_model: the `!=` duplicate test of insert() in binary64
+         (QuadTree_Float_Dup.fdup) is the model's pt_eqb on the values; in the coqc batch, count[0] of every occupied leaf of
+         the real dump must be the number of inserted indices fdup identifies with the stored point (real sign bits).
 stream2: "tolerance stream" (a TEST, labelled so in the evidence): mean-centred constructor
          QuadTree(Y, N) on random doubles and explicit non-dyadic roots with points one ulp from the
          split lines; checked on the dump alone (nothing lost, masses add up, isCorrect, theta=0 sums
@@ -74,10 +83,17 @@ TRUSTED = [
     "(children_cover_binary64_refuted, phantom_mass_binary64_refuted), its absence on grid inputs with headroom is a "
     "theorem (children_cover_binary64_exact_inputs, no_crack_below_grid_root; Flocq 4.1 from user-contrib relates the "
     "primitives to real arithmetic).  Axioms listed by Print Assumptions for these: the PrimFloat/PrimInt63 primitives, "
-    "Coq.Floats.FloatAxioms (Prim2SF_valid, SF2Prim_Prim2SF, Prim2SF_SF2Prim, add_spec, sub_spec, mul_spec, ltb_spec), "
+    "Coq.Floats.FloatAxioms (Prim2SF_valid, SF2Prim_Prim2SF, Prim2SF_SF2Prim, add_spec, sub_spec, mul_spec, ltb_spec; eqb_spec "
+    "for duplicate_test_binary64_is_exact_model), "
     "ClassicalDedekindReals.sig_forall_dec / sig_not_dec, FunctionalExtensionality.functional_extensionality_dep, "
     "Classical_Prop.classic.  The rest of the tree in binary64 (centre of mass, force sums, which leaf a point ends in) "
     "is NOT covered by a proof; the tolerance stream and the Python binary64 replay test it",
+    "signed zeros: the token \"-0:0\" stands for the double -0.0; harness/c18.cpp parse_num turns it into that bit pattern "
+    "(and reports the number of negative zeros it fed, compared on every case), fr()/the OCaml driver read it as the "
+    "rational 0, Python doubles and Coq primitive floats get the signed value (the count Coq reads back is compared); the "
+    "duplicate test of insert() is modelled in binary64 as QuadTree_Float_Dup.fdup (IEEE == per coordinate) and proved equal "
+    "to the exact model's pt_eqb on finite points; it is tied to the code only through the leaf counts of the real dumps "
+    "(the test itself is inline in insert() and cannot be called alone)",
     "coqc run inside the check (vm_compute of QuadTree_Float_Model.fcase_* on the dumps of the real trees, hex float "
     "literals written by checks/c18.py, result parsed from coqc's output); the real containsPoint matrix is printed by "
     "harness/c18.cpp (Cell::containsPoint of every cell on every data point)",
@@ -2165,7 +2181,9 @@ def run(ctx):
         rule="point sets from corpus + families generic dyadic / clustered / collinear (incl. on split lines) / coincident "
              "(2..5 copies) / on cell edges and corners / elongated boxes (aspect 8..256) / magnitudes 2^-40..2^0 / points outside the root / exact ties of "
              "the summary criterion / the same case times 2^k, k = +-30..+-300 (scale) / tiny cluster in a huge box up to "
-             "600 levels deep (scale_mixed), random insertion orders, every permutation of small mixed sets, six root boxes "
+             "600 levels deep (scale_mixed) / signed zeros: random sign bits on the zero coordinates of half of these cases, and the family "
+             "signed_zero = coincident points whose zero coordinate is +0.0 in one copy and -0.0 in another (on split lines, box edges, "
+             "mirrored data, one-sign controls; modes E and F), also injected into the tolerance and gradient streams; random insertion orders, every permutation of small mixed sets, six root boxes "
              "(square, rectangular, offset); thetas 0, 2^-60, 2^-20, 1/64, 1/8, 1/2, 1, 2.  Exact stream: every cell of the "
              "real tree equals the extracted model's (boxes, size, index, count, cum_size exactly; center_of_mass and "
              "force sums under a rounding bound), the extracted struct_okb runs on the real dump; on the dump itself: exact means, "
@@ -2174,7 +2192,8 @@ def run(ctx):
              "(tol_auto, tol_ulp; a TEST): mean-centred constructor on random doubles and points one ulp from split "
              "lines, first/last sample extreme on an axis, checked on the dump alone and against a binary64 replay of the "
              "shipped algorithm.  Binary64 model (Coq primitive floats, one coqc run per batch): child boxes and every "
-             "containsPoint decision of the real tree on corpus + tolerance + scaled + every 8th case.  grad: "
+             "containsPoint decision of the real tree on corpus + tolerance + scaled + signed_zero + every 8th case, and count[0] of every "
+             "occupied leaf = number of inserted indices the binary64 duplicate test (IEEE ==) identifies with the stored point.  grad: "
              "TSNE::computeGradient / evaluateError on random, dyadic and coincident maps.  non-trivial = at least 3 insertions and 2 distinct points; distinct by "
              "hash of (mode, root, points, order).",
         samples=[{k: c[k] for k in ("kind", "mode", "root", "pts", "order")} for c in
